@@ -52,7 +52,7 @@ checks = {
  "C15": ("INDEX-SIGN (a table indexed by a signed parameter is bounded on both sides), LENCAP (no ID refused for being longer than a constant below 68 characters), NOPARTIAL incl. merged single-exit returns, HANDPARSE (a hand-written decimal field parser has a cutoff test or a length bound of at most 18 and refuses a lone sign), SIGNED-FIELD (no digit-run tokenizer, no ParseUint over all components), GUARD table (94 rows, scenario path analysis: interval / nil / arity / parse-failure / option / order / empty-list facts; a success return reached only past tests of the argument that the analysis cannot evaluate is reported as undecided, one reached without any such test as violated), ERRUSED (no strconv error of caller text dropped), ERRSWALLOW (no callee error lost through a shadowed named result), PARSE-BASE (decimal only), FIELDGUARD (who writes Point fields, rounding direction of latitude, limit test dominates store), NOPARTIAL",
          "not decided: the < 1e-10 magnitude of the latitude cut; panics inside third-party code for valid inputs; zoom fields inside well-formed IDs (excluded by the property's quantifier)",
          "abstract scenario propagation over CFGs with recursive callee summaries (no code executed, no solver)"),
- "C16": ("EFFECT-PARAM (no exported function writes caller data; type-filtered write sets), UNIT-ZOOM and NOSKIP (merge result independent of input order), NOORDERDEP (no positional use of map-ordered slices), MAPLOOP-COMMUTATIVE, DISTINCT / DISTINCT-PAIR rows, NONDET (no other nondeterminism source reachable)",
+ "C16": ("GOSHARED, POOL-RESET, POOL-USE-AFTER-PUT, HASHKEY (no set keyed by a hash of its elements), EFFECT-PARAM (no exported function writes caller data; type-filtered write sets), UNIT-ZOOM and NOSKIP (merge result independent of input order), NOORDERDEP (no positional use of map-ordered slices), MAPLOOP-COMMUTATIVE, DISTINCT / DISTINCT-PAIR rows, NONDET (no other nondeterminism source reachable)",
          "NOT decided: invariance of the result set under permutation / duplication of the input list in general (value-level confluence)",
          "interprocedural effect analysis + map-order taint"),
  "C18": ("FIELDGUARD (SetAlt / SetLon store their parameter itself: no normalising phi, no helper that computes), PASSTHRU (altitude same value end to end; x/y exactly the transform's results), MAPORDER, ELEMENTWISE, ERRUSED (Safe transform error tested and mapped to the conversion error), CHUNK (batched conversion covers every point), CRS-ARGS (direction)",
@@ -94,7 +94,7 @@ for pid in sorted(list(checks.keys()) + ["C19"]):
          "evidence_file": "/verif/evidence/C19.json",
          "replay_cmd_template": "cat {path}",
          "engine": "sidcheck",
-         "level_claimed": {"category": "proof", "text": "sound over-approximating effect analysis of the whole program reachable from every exported function (dependencies analysed from their bodies): no write to package-level or argument-reachable memory, no goroutines / locks / unsafe; this implies data-race freedom for concurrent calls on shared read-only arguments and per-call determinism, under the stated trusted base", "design_ref": "DESIGN.md section 4 C19, section 3 A5"},
+         "level_claimed": {"category": "proof", "text": "sound over-approximating effect analysis of the whole program reachable from every exported function (dependencies analysed from their bodies): no write to package-level or argument-reachable memory, no goroutines / locks / unsafe; this implies data-race freedom for concurrent calls on shared read-only arguments and per-call determinism, under the stated trusted base On a tree that does start goroutines or uses sync.Once / sync.Pool the proof no longer applies: the check then reports positive evidence only (GOSHARED: workers writing a shared variable or one shared object, a spawning loop assigning what the workers captured; POOL-RESET / POOL-USE-AFTER-PUT; a sync.Once literal that captured its caller's data) and is undecided otherwise", "design_ref": "DESIGN.md section 4 C19, section 3 A5"},
          "level_note": "trusted: go/types, go/ssa, VTA call-graph over-approximation, the Go standard library (summarised by a mutator table); caller-supplied callbacks are the caller's code",
          "technique": "interprocedural effect (write-set) analysis on SSA with origin tracing"
         })
